@@ -271,8 +271,9 @@ func (c *SliceCode) ToOpcode(ctx *compileContext) Opcodes {
 	return Opcodes{header}.Add(codes...).Add(elemCode).Add(end)
 }
 
-func (c *SliceCode) Filter(_ *FieldQuery) Code {
-	return c
+func (c *SliceCode) Filter(query *FieldQuery) Code {
+	// a sub field query on a slice field selects fields of the elements
+	return &SliceCode{typ: c.typ, value: c.value.Filter(query)}
 }
 
 type ArrayCode struct {
@@ -316,8 +317,8 @@ func (c *ArrayCode) ToOpcode(ctx *compileContext) Opcodes {
 	return Opcodes{header}.Add(codes...).Add(elemCode).Add(end)
 }
 
-func (c *ArrayCode) Filter(_ *FieldQuery) Code {
-	return c
+func (c *ArrayCode) Filter(query *FieldQuery) Code {
+	return &ArrayCode{typ: c.typ, value: c.value.Filter(query)}
 }
 
 type MapCode struct {
@@ -366,8 +367,9 @@ func (c *MapCode) ToOpcode(ctx *compileContext) Opcodes {
 	return Opcodes{header}.Add(keyCodes...).Add(value).Add(valueCodes...).Add(key).Add(end)
 }
 
-func (c *MapCode) Filter(_ *FieldQuery) Code {
-	return c
+func (c *MapCode) Filter(query *FieldQuery) Code {
+	// ... on a map field, fields of the values
+	return &MapCode{typ: c.typ, key: c.key, value: c.value.Filter(query)}
 }
 
 type StructCode struct {
